@@ -16,6 +16,7 @@ import (
 	"github.com/evanoberholster/imagemeta/imagetype"
 	"github.com/evanoberholster/imagemeta/meta"
 	"github.com/evanoberholster/imagemeta/meta/utils"
+	"github.com/evanoberholster/imagemeta/verifhook"
 )
 
 // Errors
@@ -65,6 +66,7 @@ func ScanJPEG(r io.Reader, exifReader func(r io.Reader, header meta.ExifHeader) 
 			err = state.(error)
 		}
 	}()
+	defer func() { verifhook.T("jpeg", "ret", verifErr(err)) }()
 
 	var localBuffer bool
 	br, ok := r.(*bufio.Reader)
@@ -139,6 +141,7 @@ func ScanJPEG(r io.Reader, exifReader func(r io.Reader, header meta.ExifHeader) 
 
 func (jr *jpegReader) nextMarker() bool {
 	for jr.err == nil {
+		verifhook.T("jpeg", "scan", int64(jr.discarded), int64(jr.pos))
 		if jr.buf, jr.err = jr.peek(64); jr.err != nil {
 			jr.err = ErrNoJPEGMarker
 			return false
@@ -163,6 +166,7 @@ func (jr *jpegReader) nextMarker() bool {
 			jr.offset = jr.discarded
 			jr.size = jpegEndian.Uint16(jr.buf[2:4])
 			jr.marker = markerType(jr.buf[1])
+			verifhook.T("jpeg", "marker", int64(jr.marker), int64(jr.size), int64(jr.offset), int64(jr.pos))
 			return true
 		}
 		// Marker outside of an image (before the first SOI or after the
@@ -279,9 +283,11 @@ func (jr *jpegReader) readExif() (err error) {
 		exifHeader := meta.NewExifHeader(byteOrder, firstIfdOffset, jr.discarded, exifLength, imagetype.ImageJPEG)
 
 		cr := countReader{br: jr.br}
+		verifhook.T("jpeg", "exifcb>", int64(byteOrder), int64(firstIfdOffset), int64(jr.discarded), int64(exifLength))
 		err = jr.ExifReader(&cr, exifHeader)
 		// Account for the bytes consumed by the ExifReader
 		jr.discarded += uint32(cr.n)
+		verifhook.T("jpeg", "exifcb<", int64(jr.discarded), int64(cr.n))
 		if err != nil {
 			return err
 		}
@@ -308,9 +314,11 @@ func (jr *jpegReader) readXMP() (err error) {
 	// Read XMP Decode Function here
 	if jr.XMPReader != nil {
 		r := io.LimitReader(jr.br, int64(remain))
+		verifhook.T("jpeg", "xmpcb>", int64(remain), int64(jr.discarded))
 		err = jr.XMPReader(r)
 		// Account for the bytes consumed by the XMPReader
 		jr.discarded += uint32(remain - int(r.(*io.LimitedReader).N))
+		verifhook.T("jpeg", "xmpcb<", int64(r.(*io.LimitedReader).N), int64(jr.discarded))
 		if err != nil {
 			return err
 		}
@@ -319,6 +327,19 @@ func (jr *jpegReader) readXMP() (err error) {
 	}
 	// Discard remaining bytes
 	return jr.discard(remain)
+}
+
+// verifErr classifies an error for the verification hooks (0 = nil).
+func verifErr(err error) int64 {
+	switch err {
+	case nil:
+		return 0
+	case ErrNoJPEGMarker:
+		return 1
+	case ErrEndOfImage:
+		return 2
+	}
+	return 3
 }
 
 // countReader counts the bytes a metadata reader consumes from the
